@@ -70,6 +70,7 @@ func (s *State) clone() *State {
 
 // VC holds everything generated for one function under contract.
 type VC struct {
+	noKeepOld bool // the callee being havoced is declared "mutates": immutable types get no protection
 	prog      *Program
 	specs     *SpecDB
 	fn        *ssa.Function
